@@ -9,6 +9,7 @@ from ..rat import rat, frac
 from .. import symtrace as st
 from ..symtrace import Sym
 from .. import gen_geom
+from .. import c12_session as S
 
 PROPERTY = "C12"
 LEAN_MODULE = "Proofs.C12"
@@ -30,7 +31,10 @@ THEOREMS = [_T + n for n in [
     # binary64: the computation operation by operation in a rounding arithmetic
     "isRnd_id", "isRnd_example", "relErr_id", "C12_float_id", "C12_float_symm", "C12_float_rejects",
     "C12_float_default_exact", "C12_float_abs_one_sided", "C12_float_monotone", "C12_float_exact_on_grid",
-    "C12_float_in_clip", "C12_float_band", "C12_float_in_clip_band"]]
+    "C12_float_in_clip", "C12_float_band", "C12_float_in_clip_band",
+    # follow-up 3: how the arguments of a call reach the parameters; histories in one process
+    "C12_params_nodup", "C12_bind_positional", "C12_bind_keyword_order", "C12_call_forms", "C12_call_forms_geometry",
+    "C12_session_last_write", "C12_session_answer", "C12_session_reads_transparent", "C12_session_fresh"]]
 LEVEL_TEXT = ("Lean theorems (symmetry, iff with intersection length >= threshold, set-theoretic / measure readings, "
               "monotonicity, rejection; on geometries: the predicate on [least, greatest] time / frequency coordinate; "
               "is_in_clip iff, its corollaries and its relation to the overlap length) hold for all rational inputs of the "
@@ -38,23 +42,51 @@ LEVEL_TEXT = ("Lean theorems (symmetry, iff with intersection length >= threshol
               "exact for the default threshold and exact outside an explicit band for every threshold.  Every modelled "
               "function is re-derived from the source on each run by path-exhaustive symbolic tracing and proved equal to "
               "the model for all inputs, in exact arithmetic and operation by operation in the rounding arithmetic, "
-              "and run differentially on exhaustive dyadic grids (exact) and on arbitrary floats (bit for bit).")
+              "and run differentially on exhaustive dyadic grids (exact) and on arbitrary floats (bit for bit).  How the "
+              "arguments of a call reach the parameters (positional / keyword / explicit None, against parameter tables "
+              "re-read from the signatures) and histories of calls in one process on objects that are changed in between "
+              "are part of the model: every way of writing a call gives the same answer, and every call of a history "
+              "answers as the base predicate on the content the objects carry at that moment (C12_call_forms, "
+              "C12_bind_*, C12_session_*); both are run differentially on live objects.")
 LEVEL_NOTE = ("Trusted: Lean kernel, symbolic tracer (stubs for geometry_to_shapely / compute_bounds / Clip), shapely "
-              "bounds, `rnd64` = binary64 round-to-nearest-even (compared with CPython on every run).  Unmodelled: "
-              "overflow / underflow / inf / nan of binary64.")
+              "bounds, `rnd64` = binary64 round-to-nearest-even (compared with CPython on every run).  Histories: the "
+              "model has no state by construction (C12_session_reads_transparent); that the *code* has none is validated "
+              "by enumerated and random histories (every geometry type x every way of changing an object x every first "
+              "use), not proved.  Unmodelled: overflow / underflow / inf / nan of binary64; threads.")
 TECHNIQUE = ("Lean 4 proof over model; symbolic-trace equality obligations regenerated from source (exact and "
              "rounding arithmetic); exhaustive-grid and bit-exact float correspondence")
 RULE = ("exhaustive grids of interval end points x threshold settings, random dyadic intervals, geometry pairs of "
-        "all 81 type combinations on boundary placements, clip/geometry placements, arbitrary binary64 inputs; "
-        "non-trivial = the implementation returned a boolean (not an error); distinct = distinct (operation, input)")
+        "all 81 type combinations on boundary placements (enumerated on either axis), clip/geometry placements, "
+        "arbitrary binary64 inputs incl. offsets of a relative 1e-6 .. 1e-12 on both sides of every comparison at "
+        "magnitudes 1e-3 .. 1e6 and the lattice k/100; every way of writing a call (positional / mixed / keywords in "
+        "both orders / explicit None) x every container (tuple, list, ndarray, namedtuple) and number type (int, "
+        "float, numpy float64 / float32 / int64, Fraction, bool thresholds); every construction path of geometries "
+        "and clips (constructor, geometry_validate dict / json / attributes, model_validate(_json), copies, dump round "
+        "trip, subclass); geometries of 17 / 257 / 1025 vertices or parts with the extremes anywhere in the list; "
+        "histories in one process (op `session`): objects used, then changed (assignment, model_copy(update=...) "
+        "shallow / deep, copy + assignment, in-place list edit, raw tuples / ints) or derived into a second object, "
+        "then used again; clips changed under the same uuid; the same objects asked with one option after another; "
+        "arguments snapshotted around every call; the replay of a failing history is the whole sequence; "
+        "non-trivial = the implementation returned a boolean (not an error) (sessions: at least one call answered); "
+        "distinct = distinct (operation, input)")
 TRUSTED = ["shapely `bounds` (min/max over the converted coordinates) inside compute_bounds",
            "symbolic tracer stubs: geometry_to_shapely (or compute_bounds) replaced by a symbolic 4-tuple, Clip by a "
            "record of two symbols",
-           "`SE.Affinity.rnd64` is binary64 round-to-nearest-even (monitored against float(Fraction) every run)"]
+           "`SE.Affinity.rnd64` is binary64 round-to-nearest-even (monitored against float(Fraction) every run)",
+           "the session driver harness/c12_session.py (the content a slot carries is the JSON of the step that wrote "
+           "it, never read back from the object; pydantic's model_copy / copy semantics produce the object)",
+           "Python's own binding of positional and keyword arguments (`bindCall` is its model for the optional "
+           "parameters; the parameter tables are re-read from inspect.signature on every run)"]
 ASSUMPTIONS = ["binary64 arithmetic is exact on the dyadic grids used (sums/products of <= 20-bit dyadics); "
                "justified by C12_float_exact_on_grid",
                "no overflow / underflow / inf / nan in the float runs (magnitudes 1e-3 .. 1e7)"]
-NOT_COMPARED = ["error messages (only the error class)", "non-finite floats"]
+NOT_COMPARED = ["error messages (only the error class)", "non-finite floats",
+                "objects that merely look like a Clip / a geometry (duck typing: the functions are annotated with the data "
+                "classes; subclasses of them are exercised)",
+                "the value returned by compute_bounds in a history (C05's subject; here it only makes history)",
+                "calls Python itself rejects (too many positional values, unknown keywords): modelled as TypeError, not run",
+                "geometries sharing one coordinate list object (aliasing between two live objects is Python's, not the "
+                "library's, semantics)"]
 
 U53 = "1/9007199254740992"     # unit round-off of binary64
 
@@ -76,6 +108,13 @@ def _num(s, how):
         return np.float64(float(q))
     if how == "frac":
         return q
+    if how == "f32":
+        import numpy as np
+        return np.float32(float(q))
+    if how == "i64":
+        import numpy as np
+        assert q.denominator == 1
+        return np.int64(int(q))
     return float(q)
 
 
@@ -87,50 +126,78 @@ def _public(name):
     return fn if fn is not None else getattr(ops, name)
 
 
-def _twice(call):
-    """the predicates are functions of their arguments: two calls on the same objects must agree"""
+def _twice(call, snap=None):
+    """the predicates are functions of their arguments: two calls on the same objects must agree, and the
+    arguments must be after the calls what they were before (`snap`: a comparable snapshot of them)"""
+    s0 = snap() if snap is not None else None
     r1 = bool(call())
     r2 = bool(call())
+    out = {"val": r1}
     if r1 != r2:
-        return {"val": r1, "second_call": r2}
-    return {"val": r1}
+        out["second_call"] = r2
+    if snap is not None:
+        s1 = snap()
+        if len(s0) != len(s1) or not all(S._same(x, y) for x, y in zip(s0, s1)):
+            out["argument_mutated"] = True
+    return out
 
 
 def _impl_intervals(inp):
     fn = _public("intervals_overlap")
     how = inp.get("as")
-    conv = "int" if how == "int" else "np" if how == "np" else "frac" if how == "frac" else "float"
-    mk = list if how == "list" else tuple
-    i1 = mk(_num(x, conv) for x in inp["i1"])
-    i2 = mk(_num(x, conv) for x in inp["i2"])
+    conv = how if how in ("int", "np", "frac", "f32", "i64") else "float"
+    box = inp.get("box") or ("list" if how == "list" else "tuple")
+    i1 = S._box([_num(x, conv) for x in inp["i1"]], box)
+    i2 = S._box([_num(x, conv) for x in inp["i2"]], box)
+    import copy
+
+    def snap():
+        return [copy.copy(i1), copy.copy(i2)]
+    if inp.get("call") is not None:          # the optional arguments exactly as the call writes them
+        pos, kw = _call_args(inp["call"], lambda v: _num(v, conv))
+        return _twice(lambda: fn(i1, i2, *pos, **kw), snap)
     a, r = _num(inp["abs"], conv), _num(inp["rel"], conv)
+    if inp.get("thr_as") == "bool":
+        a, r = (None if a is None else bool(a)), (None if r is None else bool(r))
     if how == "pos":
         if r is None:
-            return _twice(lambda: fn(i1, i2, a))
-        return _twice(lambda: fn(i1, i2, a, r))
+            return _twice(lambda: fn(i1, i2, a), snap)
+        return _twice(lambda: fn(i1, i2, a, r), snap)
     kw = {}
     if a is not None or inp.get("explicit_none"):
         kw["min_absolute_overlap"] = a
     if r is not None or inp.get("explicit_none"):
         kw["min_relative_overlap"] = r
-    return _twice(lambda: fn(i1, i2, **kw))
+    return _twice(lambda: fn(i1, i2, **kw), snap)
+
+
+def _call_args(call, conv):
+    """{"pos": [v ...], "kw": [[name, v] ...]} -> (positional list, keyword dict in the order written)"""
+    return [conv(v) for v in call["pos"]], {k: conv(v) for k, v in call["kw"]}
 
 
 def _impl_geom(which):
     def impl(inp):
         fn = _public("have_temporal_overlap" if which == "temporal" else "have_frequency_overlap")
-        g1, g2 = gen_geom.to_data(inp["g1"]), gen_geom.to_data(inp["g2"])
+        g1 = S.build_geom(inp["g1"], inp.get("build1", "validate"))
+        g2 = S.build_geom(inp["g2"], inp.get("build2", "validate"))
         if inp.get("same_object"):
             g2 = g1
+
+        def snap():
+            return [S._snap_geom(g1), S._snap_geom(g2)]
+        if inp.get("call") is not None:
+            pos, kw = _call_args(inp["call"], _f)
+            return _twice(lambda: fn(g1, g2, *pos, **kw), snap)
         a, r = _f(inp["abs"]), _f(inp["rel"])
         if inp.get("as") == "pos":
-            return _twice(lambda: fn(g1, g2, a, r))
+            return _twice(lambda: fn(g1, g2, a, r), snap)
         kw = {}
         if a is not None:
             kw["min_absolute_overlap"] = a
         if r is not None:
             kw["min_relative_overlap"] = r
-        return _twice(lambda: fn(g1, g2, **kw))
+        return _twice(lambda: fn(g1, g2, **kw), snap)
     return impl
 
 
@@ -148,14 +215,24 @@ def _recording():
 def _impl_in_clip(inp):
     from soundevent import data
     fn = _public("is_in_clip")
-    clip = data.Clip(recording=_recording(), start_time=_f(inp["start"]), end_time=_f(inp["end"]))
-    g = gen_geom.to_data(inp["g"])
+    if inp.get("clip_how") or inp.get("clip_num"):
+        clip = S.build_clip({"start": inp["start"], "end": inp["end"], "how": inp.get("clip_how", "new"),
+                             "num": inp.get("clip_num", "float")})
+    else:
+        clip = data.Clip(recording=_recording(), start_time=_f(inp["start"]), end_time=_f(inp["end"]))
+    g = S.build_geom(inp["g"], inp.get("build", "validate"))
+
+    def snap():
+        return [S._snap_geom(g), S._snap_clip(clip)]
+    if inp.get("call") is not None:
+        pos, kw = _call_args(inp["call"], _f)
+        return _twice(lambda: fn(g, clip, *pos, **kw), snap)
     if inp.get("min") is None:
-        return _twice(lambda: fn(g, clip))                      # the default of the code
+        return _twice(lambda: fn(g, clip), snap)                # the default of the code
     m = _num(inp["min"], "int" if inp.get("as") == "int" else "float")
     if inp.get("as") == "pos":
-        return _twice(lambda: fn(g, clip, m))
-    return _twice(lambda: fn(g, clip, minimum_overlap=m))
+        return _twice(lambda: fn(g, clip, m), snap)
+    return _twice(lambda: fn(g, clip, minimum_overlap=m), snap)
 
 
 # ---------------------------------------------------------------- binary64: monitor of the property on floats
@@ -231,6 +308,10 @@ OPS = {
                          determined=False, holds=_float_holds("is_in_clip_f64")),
 }
 
+OPS["session"] = Op("session", S.run_session, compare=S.compare_session,
+                    nontrivial=lambda inp, out: isinstance(out, dict) and any(
+                        isinstance(o, dict) and "val" in o for o in out.get("val", [])))
+
 THRESHOLDS = ([(None, None)] + [(a, None) for a in ["0", "1/4", "1/2", "1", "-1/4", "2"]]
               + [(None, r) for r in ["0", "1/4", "1/2", "1", "-1/4", "5/4"]]
               + [("1/4", "1/4"), ("0", "1/4"), ("1/4", "0"), ("0", "0")])
@@ -254,28 +335,55 @@ def _signature_table(ctx):
         ctx.pre_failed.append("default_minimum_overlap")
         ctx.fail("obligation", "default_minimum_overlap", detail=f"default of minimum_overlap not extractable: {e!r}",
                  extra={"op": "is_in_clip"})
-    fn = getattr(ops, "intervals_overlap", None)
-    for name in ("intervals_overlap", "have_temporal_overlap", "have_frequency_overlap"):
+    # the positional-signature table: after the two subjects, which optional parameters can be passed by position,
+    # in which order, under which names (`SE.Intervals.overlapParams` / `clipParams`, the tables `bindCall` binds
+    # against: C12_bind_positional, C12_bind_keyword_order, C12_call_forms).  Only what a caller can observe is
+    # pinned: the names of the two subjects and additional keyword-only parameters with defaults are free.
+    opname = {"intervals_overlap": "intervals_overlap", "have_temporal_overlap": "temporal",
+              "have_frequency_overlap": "frequency", "is_in_clip": "is_in_clip"}
+    for name, table in (("intervals_overlap", "overlapParams"), ("have_temporal_overlap", "overlapParams"),
+                        ("have_frequency_overlap", "overlapParams"), ("is_in_clip", "clipParams")):
         fn = getattr(ops, name, None)
+        obl = "signature_table_" + name
         try:
-            ps = inspect.signature(fn).parameters
-            ok = ps["min_absolute_overlap"].default is None and ps["min_relative_overlap"].default is None
-        except Exception:  # noqa: BLE001
-            ok = False
-        if not ok:
-            ctx.pre_failed.append("threshold_defaults_" + name)
-            ctx.fail("obligation", "threshold_defaults_" + name,
-                     detail="both thresholds must default to None (the model's `none none`)",
-                     extra={"op": {"intervals_overlap": "intervals_overlap", "have_temporal_overlap": "temporal",
-                                   "have_frequency_overlap": "frequency"}[name]})
+            ps = list(inspect.signature(fn).parameters.values())
+            P = inspect.Parameter
+            if any(p.kind in (P.VAR_POSITIONAL, P.VAR_KEYWORD) for p in ps):
+                raise TypeError("*args / **kwargs: the binding of a call is no longer readable from the signature")
+            positional = [p for p in ps if p.kind in (P.POSITIONAL_ONLY, P.POSITIONAL_OR_KEYWORD)]
+            kwonly = [p for p in ps if p.kind == P.KEYWORD_ONLY]
+            if len(positional) < 2 or any(p.default is not P.empty for p in positional[:2]):
+                raise TypeError("the two subjects must be the first two parameters, without defaults")
+            if any(p.default is P.empty for p in positional[2:] + kwonly):
+                raise TypeError("a further required parameter")
+            if any(p.kind == P.POSITIONAL_ONLY for p in positional[2:]):
+                raise TypeError("an optional parameter that cannot be passed by keyword")
+            names = [p.name for p in positional[2:]]
+            for p in kwonly:
+                ctx.tally(f"signature: extra keyword-only parameter {name}({p.name}=...)")
+            lst = "[" + ", ".join('"' + n + '"' for n in names) + "]"
+            ctx.obligation(obl, f"example : SE.Intervals.{table} = {lst} := by decide", {"op": opname[name]})
+            if table == "overlapParams" and not all(p.default is None for p in positional[2:]):
+                raise TypeError("both thresholds must default to None (the model's `none none`)")
+        except InfraError:
+            raise
+        except Exception as e:  # noqa: BLE001
+            ctx.pre_failed.append(obl)
+            ctx.fail("obligation", obl, detail=f"signature of {name} does not fit the model's parameter table: {e!r}",
+                     extra={"op": opname[name]})
 
 
 # ---------------------------------------------------------------- tie 1b
 # closing tactic of the ties: the shared `se_close`, then (for decision trees whose shape differs from the model's:
 # conditional expressions instead of min / max, negated comparisons) a full case split with arithmetic at the leaves
 _CLOSE = ("first\n    | se_close\n"
-          "    | (simp only [Rat.min_def, Rat.max_def]; repeat' split; all_goals (try simp); all_goals (try grind))\n"
-          "    | (simp only [Option.map]; repeat' split; all_goals (try simp); all_goals (try grind))")
+          # (`repeat'` takes a tactic *sequence*: it must be parenthesised, and every alternative but the last ends
+          # in `done`, so that an alternative that leaves goals falls through to the next one)
+          "    | (simp only [Rat.min_def, Rat.max_def]; (repeat' split); all_goals (try simp); all_goals (try grind); done)\n"
+          "    | (simp only [Option.map]; (repeat' split); all_goals (try simp); all_goals (try grind); done)\n"
+          # `min` / `max` written the other way round in the code (`b if b <= a else a`): unfold the model's likewise
+          "    | (simp only [SE.Intervals.min_flip, SE.Intervals.max_flip]; (repeat' split); all_goals (try simp); "
+          "all_goals (try grind))")
 _UNF = "SE.Intervals.intervalsOverlap SE.Intervals.threshold SE.Intervals.thrOverlap"
 _UNFR = "SE.Intervals.intervalsOverlapR SE.Intervals.thresholdR"
 
@@ -471,12 +579,20 @@ def _typed_interval_cases():
            (None, "-1"), (None, "2"), ("0", "0"), ("1", "1"), ("0", "1"), ("1", "0")]
     for s1, e1, s2, e2 in itertools.product(vals, repeat=4):
         for a, r in thr:
-            for how in ("int", "np", "frac", "list", "pos"):
+            for how in ("int", "np", "frac", "list", "pos", "f32", "i64"):
                 if how == "pos" and a is None and r is None:
                     continue
                 yield {"i1": [s1, e1], "i2": [s2, e2], "abs": a, "rel": r, "as": how}
             if a is None or r is None:
                 yield {"i1": [s1, e1], "i2": [s2, e2], "abs": a, "rel": r, "explicit_none": True}
+
+
+def _bool_threshold_cases():
+    """True / False where a number is expected (accepted today: they are the integers 1 / 0)"""
+    vals = [str(i) for i in range(4)]
+    for s1, e1, s2, e2 in itertools.product(vals, repeat=4):
+        for a, r in [("0", None), ("1", None), (None, "0"), (None, "1"), ("0", "1")]:
+            yield {"i1": [s1, e1], "i2": [s2, e2], "abs": a, "rel": r, "thr_as": "bool"}
 
 
 def _random_interval_cases(rng, n):
@@ -556,11 +672,12 @@ _RELATIONS = [(0, 1, 2, 3), (0, 1, 1, 2), (0, 2, 1, 3), (0, 3, 1, 2), (0, 2, 0, 
 
 def _geom_boundary_cases(rng, thr_per_case):
     """all 81 type pairs on every relation of the extents (disjoint, touching, partial, nested, equal, sharing an
-    end, degenerate), the relation applied to the time axis and (independently chosen) to the frequency axis"""
+    end, degenerate): every relation on the time axis with a drawn one on the frequency axis, and - the sibling -
+    every relation on the frequency axis with a drawn one on the time axis"""
     for t1 in gen_geom.TYPES:
         for t2 in gen_geom.TYPES:
-            for rel_t in _RELATIONS:
-                rel_f = rng.choice(_RELATIONS)
+            for rel_t, rel_f in ([(x, rng.choice(_RELATIONS)) for x in _RELATIONS]
+                                 + [(rng.choice(_RELATIONS), x) for x in _RELATIONS]):
                 g1 = geom_with_extent(t1, rel_t[0], rel_t[1], rel_f[0], rel_f[1])
                 g2 = geom_with_extent(t2, rel_t[2], rel_t[3], rel_f[2], rel_f[3])
                 for order in ((g1, g2), (g2, g1)):
@@ -611,6 +728,436 @@ def _clip_cases(rng, reps):
                     if how:
                         c["as"] = how
                     yield c
+
+
+# ---------------------------------------------------------------- construction paths and call forms (HISTORIES.md 2)
+_A, _R = "min_absolute_overlap", "min_relative_overlap"
+
+
+def call_forms(a, r):
+    """every legitimate way of writing a call that passes the thresholds (a, r) (None = Python None):
+    C12_call_forms states that the model gives all of them the same answer"""
+    out = [{"pos": [a, r], "kw": []}, {"pos": [a], "kw": [[_R, r]]}, {"pos": [], "kw": [[_A, a], [_R, r]]},
+           {"pos": [], "kw": [[_R, r], [_A, a]]}]
+    if r is None:
+        out += [{"pos": [a], "kw": []}, {"pos": [], "kw": [[_A, a]]}]
+    if a is None:
+        out += [{"pos": [], "kw": [[_R, r]]}]
+    if a is None and r is None:
+        out += [{"pos": [], "kw": []}]
+    return out
+
+
+def _interval_form_cases():
+    """every call form x every container of the two intervals x numpy / float scalars, on every relation of two
+    intervals and every threshold setting"""
+    for k, rel in enumerate(_RELATIONS + [(2, 0, 0, 3), (1, 0, 1, 0)]):
+        i1, i2 = [rat(Fraction(rel[0])), rat(Fraction(rel[1]))], [rat(Fraction(rel[2])), rat(Fraction(rel[3]))]
+        for n, (a, r) in enumerate(THRESHOLDS):
+            for m, call in enumerate(call_forms(a, r)):
+                for box in S.BOXES:
+                    c = {"i1": i1, "i2": i2, "abs": a, "rel": r, "call": call, "box": box}
+                    if (k + n + m) % 3 == 0:
+                        c["as"] = "np"
+                    yield c
+
+
+def _geom_form_cases():
+    ref = geom_with_extent("BoundingBox", 0, "3/2", 0, "3/2")
+    for t in gen_geom.TYPES:
+        g = geom_with_extent(t, 1, 2, 1, 2)
+        for a, r in THRESHOLDS:
+            for call in call_forms(a, r):
+                yield {"g1": g, "g2": ref, "abs": a, "rel": r, "call": call}
+                yield {"g1": ref, "g2": g, "abs": a, "rel": r, "call": call}
+
+
+def _clip_form_cases():
+    for t in gen_geom.TYPES:
+        for s, e in [(0, 1), (0, "3/2"), ("5/4", "7/4"), ("3/2", 3), (2, 3), ("5/4", "5/4"), (1, 1)]:
+            g = geom_with_extent(t, s, e, 1, 2)
+            if g is None:
+                continue
+            for m in ["0", "1/4", "1/2", "-1/4"]:
+                for call in ({"pos": [m], "kw": []}, {"pos": [], "kw": [["minimum_overlap", m]]}):
+                    yield {"g": g, "start": "1", "end": "2", "min": m, "call": call}
+            yield {"g": g, "start": "1", "end": "2", "min": None, "call": {"pos": [], "kw": []}}
+
+
+def _construction_pair_cases(rng):
+    """every geometry type through every construction path of the data model (constructor, geometry_validate
+    dict / json / attributes, model_validate(_json), ints, numpy scalars, tuples, copies, dump round trip), as first
+    and as second argument, on disjoint / touching / partial / nested placements"""
+    rels = [(0, 1, 2, 3), (0, 1, 1, 2), (0, 2, 1, 3), (0, 3, 1, 2)]
+    for t in gen_geom.TYPES:
+        for how in S.GEOM_BUILDS:
+            for rel in rels:
+                g = geom_with_extent(t, rel[0], rel[1], rel[0], rel[1])
+                ref = geom_with_extent(rng.choice(["BoundingBox", "TimeInterval", "LineString"]), rel[2], rel[3], rel[2], rel[3])
+                if g is None:
+                    continue
+                for a, r in [(None, None), rng.choice(THRESHOLDS), rng.choice(THRESHOLDS)]:
+                    yield {"g1": g, "g2": ref, "abs": a, "rel": r, "build1": how, "build2": rng.choice(S.GEOM_BUILDS)}
+                    yield {"g1": ref, "g2": g, "abs": a, "rel": r, "build2": how}
+
+
+def _construction_clip_cases(rng):
+    """geometry construction paths x clip construction paths (constructor, model_validate, JSON round trip, fixed
+    uuid) x number types of the clip times"""
+    places = [(0, 1), (0, "3/2"), ("5/4", "7/4"), (2, 3), ("3/2", "3/2")]
+    for t in gen_geom.TYPES:
+        for how in S.GEOM_BUILDS:
+            for ch in ("new", "same_uuid", "validate", "json", "subclass"):
+                s, e = rng.choice(places)
+                g = geom_with_extent(t, s, e, 1, 2)
+                if g is None:
+                    continue
+                yield {"g": g, "start": "1", "end": "2", "min": rng.choice([None, "0", "1/4", "1/2"]), "build": how,
+                       "clip_how": ch, "clip_num": rng.choice(S.CLIP_NUMS)}
+
+
+# ---------------------------------------------------------------- sizes (HISTORIES.md 4): many vertices / parts
+BIG_TYPES = ["LineString", "MultiPoint", "MultiLineString", "Polygon", "MultiPolygon"]
+BIG_SIZES = [17, 257, 1025]
+
+
+def big_geometry(ty, n, where, s=1, e=3, lo=1, hi=3):
+    """a geometry with >= n vertices (lines / polygons for the Multi* types) whose extent [s, e] x [lo, hi] is
+    attained *only* at four vertices placed at the position `where` (0 = first .. n = last) of the vertex list;
+    all other vertices lie in the inner box shrunk by 1/4.  All coordinates dyadic."""
+    s, e, lo, hi = (Fraction(x) for x in (s, e, lo, hi))
+    d = Fraction(1, 4)
+    bulk = []
+    for i in range(n):
+        t = s + d + (e - s - 2 * d) * Fraction(i, 2048)
+        f = (hi - d) if i % 2 else (lo + d)
+        bulk.append([t, f])
+    mt, mf = (s + e) / 2, (lo + hi) / 2
+    ext = [[s, mf], [mt, lo], [mt, hi], [e, mf]]
+    where = max(0, min(n, where))
+    if ty in ("LineString", "MultiPoint", "Polygon"):
+        pts = bulk[:where] + ext + bulk[where:]
+        if ty == "Polygon":
+            return {"type": ty, "coordinates": gen_geom._enc([pts + [pts[0]]])}
+        return {"type": ty, "coordinates": gen_geom._enc(pts)}
+    if ty == "MultiLineString":
+        lines = [[p, [p[0] + Fraction(1, 4096), p[1]]] for p in bulk]
+        special = [[[s, mf], [mt, lo]], [[mt, hi], [e, mf]]]
+        return {"type": ty, "coordinates": gen_geom._enc(lines[:where] + special + lines[where:])}
+    if ty == "MultiPolygon":
+        def tri(p, w=Fraction(1, 4096)):
+            return [[p, [p[0] + w, p[1]], [p[0], p[1] + w if p[1] < mf else p[1] - w], p]]
+        polys = [tri(p) for p in bulk]
+        special = [[[[s, mf], [s + d, mf], [s + d, lo], [s, mf]]], [[[e, mf], [e - d, mf], [e - d, hi], [e, mf]]]]
+        return {"type": ty, "coordinates": gen_geom._enc(polys[:where] + special + polys[where:])}
+    return None
+
+
+def _big_cases(plan):
+    """the four extremes of a large geometry are each the only thing a reference geometry / a clip reaches;
+    `plan`: (number of vertices, positions of the extremes in the vertex list)"""
+    d8 = Fraction(1, 8)
+    for ty in BIG_TYPES:
+        for n, wheres in plan:
+            for k, where in enumerate(wheres):
+                g = big_geometry(ty, n, where)
+                early, late = geom_with_extent("TimeInterval", 0, 1 + d8, 0, 1), geom_with_extent("TimeInterval", 3 - d8, 4, 0, 1)
+                low, high = geom_with_extent("BoundingBox", 0, 4, 0, 1 + d8), geom_with_extent("BoundingBox", 0, 4, 3 - d8, 4)
+                if k % 2:
+                    early, late, low, high = late, early, high, low
+                yield "temporal", {"g1": g, "g2": early, "abs": None, "rel": None}
+                yield "temporal", {"g1": late, "g2": g, "abs": "1/8", "rel": None}
+                yield "frequency", {"g1": low, "g2": g, "abs": None, "rel": None}
+                yield "frequency", {"g1": g, "g2": high, "abs": None, "rel": "1"}
+                yield "is_in_clip", {"g": g, "start": "0", "end": rat(1 + d8), "min": None}
+                yield "is_in_clip", {"g": g, "start": rat(3 - d8), "end": "4", "min": "1/16"}
+
+
+# ---------------------------------------------------------------- histories (HISTORIES.md 1)
+# contents an object is moved between: relative to the reference box / the clip [2, 5] (x [2, 5] Hz) A reaches in
+# over the start only, B over the end only, C lies after it, D before it, E covers it - so every answer depends on
+# both ends of the extent, and consecutive contents of an order have different answers
+_SLOT_EXT = {"A": (1, 3, 1, 3), "B": (4, 7, 4, 7), "C": (6, 7, 6, 7), "D": (0, 1, 0, 1), "E": (0, 8, 0, 8)}
+_SLOT_ORDERS = [("A", "C", "B"), ("D", "A", "C"), ("B", "D", "E")]
+_FIRST_TOUCHES = ["compute_bounds", "compute_bounds_poison", "shapely", "repr", "dump", "temporal_self", "in_clip_self"]
+
+
+def _session_templates():
+    """seeded C12-7 and its whole class, enumerated: every geometry type x every way of changing an object
+    (GEOM_CHANGES in place, GEOM_DERIVES into a second object) x every first use (each predicate, compute_bounds,
+    the shapely conversion ...): use, move, ask again - in three orders of contents"""
+    ref = geom_with_extent("BoundingBox", 2, 5, 2, 5)
+    first_uses = [[{"do": "temporal", "a": 0, "b": 1, "abs": None, "rel": None}],
+                  [{"do": "frequency", "a": 1, "b": 0, "abs": None, "rel": None}],
+                  [{"do": "in_clip", "a": 0, "clip": 0, "min": None}]] + [[{"do": "touch", "slot": 0, "what": w}] for w in _FIRST_TOUCHES]
+    k = 0
+    for t in gen_geom.TYPES:
+        for how in S.GEOM_CHANGES + ["derive:" + h for h in S.GEOM_DERIVES]:
+            for fu in first_uses:
+                for order in _SLOT_ORDERS:
+                    k += 1
+                    g = [geom_with_extent(t, *_SLOT_EXT[x]) for x in order]
+                    if any(x is None for x in g):
+                        continue
+                    build = S.GEOM_BUILDS[k % len(S.GEOM_BUILDS)]
+                    steps = [{"do": "set", "slot": 0, "g": g[0], "how": "new", "build": build},
+                             {"do": "set", "slot": 1, "g": ref, "how": "new"},
+                             {"do": "clip", "slot": 0, "start": "2", "end": "5", "how": "new"}] + [dict(x) for x in fu]
+                    slot = 0
+                    for j in (1, 2):
+                        if how.startswith("derive:"):
+                            steps.append({"do": "derive", "slot": slot + 2, "src": slot, "g": g[j], "how": how[7:]})
+                            old, slot = slot, slot + 2
+                        else:
+                            steps.append({"do": "set", "slot": 0, "g": g[j], "how": how})
+                            old = None
+                        form = S.FORMS[(k + j) % len(S.FORMS)]
+                        qs = [{"do": "temporal", "a": slot, "b": 1, "abs": None, "rel": None, "form": form},
+                              {"do": "temporal", "a": 1, "b": slot, "abs": None, "rel": "1/2", "form": form},
+                              {"do": "frequency", "a": slot, "b": 1, "abs": None, "rel": None},
+                              {"do": "frequency", "a": 1, "b": slot, "abs": "1/2", "rel": None, "form": form},
+                              {"do": "in_clip", "a": slot, "clip": 0, "min": None},
+                              {"do": "in_clip", "a": slot, "clip": 0, "min": "1/2", "form": form}]
+                        if old is not None:      # the object the copy was derived from still answers for its own content
+                            qs += [{"do": "temporal", "a": old, "b": 1, "abs": None, "rel": None},
+                                   {"do": "in_clip", "a": old, "clip": 0, "min": None},
+                                   {"do": "temporal", "a": old, "b": slot, "abs": None, "rel": None}]
+                        steps += qs
+                    yield {"steps": steps}
+
+
+def _clip_session_templates():
+    """the clip side: a clip that was used is changed (assignment, model_copy(update=...) - which keeps its uuid -,
+    copy + assignment) or replaced by another clip with the same uuid, then used again"""
+    for t in ("TimeStamp", "TimeInterval", "BoundingBox", "LineString", "MultiPolygon"):
+        for how in S.CLIP_HOWS:
+            for num in S.CLIP_NUMS:
+                g1, g2 = geom_with_extent(t, 6, 7, 1, 2), geom_with_extent(t, 1, 2, 1, 2)
+                if g1 is None or g2 is None:
+                    continue
+                steps = [{"do": "set", "slot": 0, "g": g1, "how": "new"}, {"do": "set", "slot": 1, "g": g2, "how": "new"},
+                         {"do": "clip", "slot": 0, "start": "0", "end": "5", "how": "same_uuid", "num": num}]
+                for cs, ce in (("0", "5"), ("5", "10"), ("13/2", "10"), ("0", "3/2")):
+                    steps.append({"do": "clip", "slot": 0, "start": cs, "end": ce, "how": how, "num": num, "uuid": 0})
+                    for m, form in ((None, "kw"), ("1/2", "pos"), ("1", "kw")):
+                        steps.append({"do": "in_clip", "a": 0, "clip": 0, "min": m, "form": form})
+                        steps.append({"do": "in_clip", "a": 1, "clip": 0, "min": m, "form": form})
+                yield {"steps": steps}
+
+
+def _option_session_templates():
+    """the same objects / the same intervals asked with one option after another, then plainly again: a cache
+    keyed by the subjects alone, or an option remembered in module state, shows in the later answers"""
+    for t1 in gen_geom.TYPES:
+        g1, g2 = geom_with_extent(t1, 0, 2, 0, 2), geom_with_extent("BoundingBox", 1, 3, 1, 3)
+        steps = [{"do": "set", "slot": 0, "g": g1, "how": "new"}, {"do": "set", "slot": 1, "g": g2, "how": "new"},
+                 {"do": "clip", "slot": 0, "start": "1", "end": "3", "how": "new"}]
+        for a, r in THRESHOLDS + [(None, None)] + THRESHOLDS[::-1]:
+            steps.append({"do": "temporal", "a": 0, "b": 1, "abs": a, "rel": r})
+            steps.append({"do": "frequency", "a": 0, "b": 1, "abs": a, "rel": r})
+        for m in [None, "1", "0", None, "-1", None, "1/2", "2", None]:
+            steps.append({"do": "in_clip", "a": 0, "clip": 0, "min": m})
+        yield {"steps": steps}
+    for box in S.BOXES:
+        steps = []
+        for a, r in THRESHOLDS + [(None, None)] + THRESHOLDS[::-1] + [(None, None)]:
+            steps.append({"do": "intervals", "i1": ["0", "2"], "i2": ["1", "3"], "abs": a, "rel": r, "box": box})
+            steps.append({"do": "intervals", "i1": ["1", "3"], "i2": ["0", "2"], "abs": a, "rel": r, "box": box,
+                          "form": "pos"})
+        yield {"steps": steps}
+
+
+def _random_sessions(rng, n):
+    """random histories on three geometry slots and two clips"""
+    grid = [Fraction(i, 4) for i in range(0, 33)]
+
+    def rgeom(t):
+        for _ in range(20):
+            a, b = sorted(rng.sample(grid, 2))
+            lo, hi = sorted(rng.sample(grid, 2))
+            if rng.random() < 0.15:
+                b = a
+            g = geom_with_extent(t, a, b, lo, hi)
+            if g is not None:
+                return g
+        return geom_with_extent(t, 1, 2, 1, 2)
+
+    for _ in range(n):
+        types = {}
+        steps = []
+        for k in range(3):
+            types[k] = rng.choice(gen_geom.TYPES)
+            steps.append({"do": "set", "slot": k, "g": rgeom(types[k]), "how": "new", "build": rng.choice(S.GEOM_BUILDS)})
+        for k in range(2):
+            a, b = sorted(rng.sample(grid, 2))
+            steps.append({"do": "clip", "slot": k, "start": rat(a), "end": rat(b), "how": rng.choice(["new", "same_uuid"]),
+                          "num": rng.choice(S.CLIP_NUMS)})
+        for _ in range(rng.randint(8, 18)):
+            u = rng.random()
+            a, r = rng.choice(THRESHOLDS)
+            if u < 0.22:
+                k = rng.randrange(3)
+                steps.append({"do": "set", "slot": k, "g": rgeom(types[k]), "how": rng.choice(S.GEOM_CHANGES)})
+            elif u < 0.30:
+                src, dst = rng.sample(range(3), 2)
+                types[dst] = types[src]
+                steps.append({"do": "derive", "slot": dst, "src": src, "g": rgeom(types[src]), "how": rng.choice(S.GEOM_DERIVES)})
+            elif u < 0.34:
+                k = rng.randrange(3)
+                types[k] = rng.choice(gen_geom.TYPES)
+                steps.append({"do": "set", "slot": k, "g": rgeom(types[k]), "how": "new", "build": rng.choice(S.GEOM_BUILDS)})
+            elif u < 0.42:
+                x, y = sorted(rng.sample(grid, 2))
+                steps.append({"do": "clip", "slot": rng.randrange(2), "start": rat(x), "end": rat(y),
+                              "how": rng.choice(S.CLIP_HOWS), "num": rng.choice(S.CLIP_NUMS), "uuid": rng.choice([None, 0, 1])})
+            elif u < 0.50:
+                steps.append({"do": "touch", "slot": rng.randrange(3), "what": rng.choice(S.TOUCHES)})
+            elif u < 0.56:
+                p = sorted(rng.sample(grid, 2)) + sorted(rng.sample(grid, 2))
+                steps.append({"do": "intervals", "i1": [rat(p[0]), rat(p[1])], "i2": [rat(p[2]), rat(p[3])], "abs": a, "rel": r,
+                              "box": rng.choice(S.BOXES), "form": rng.choice(S.FORMS)})
+            elif u < 0.72:
+                steps.append({"do": "temporal", "a": rng.randrange(3), "b": rng.randrange(3), "abs": a, "rel": r,
+                              "form": rng.choice(S.FORMS)})
+            elif u < 0.86:
+                steps.append({"do": "frequency", "a": rng.randrange(3), "b": rng.randrange(3), "abs": a, "rel": r,
+                              "form": rng.choice(S.FORMS)})
+            else:
+                steps.append({"do": "in_clip", "a": rng.randrange(3), "clip": rng.randrange(2),
+                              "min": rng.choice([None, "0", "1/4", "1", "-1/4"]), "form": rng.choice(["kw", "pos"])})
+        yield {"steps": steps}
+
+
+def _stage_histories(ctx):
+    hs = list(_session_templates()) + list(_clip_session_templates()) + list(_option_session_templates())
+    ctx.exhaustive["histories"] = (f"9 types x {len(S.GEOM_CHANGES)} in-place changes + {len(S.GEOM_DERIVES)} derivations x "
+                                   f"{3 + len(_FIRST_TOUCHES)} first uses x {len(_SLOT_ORDERS)} orders of contents; 5 types x {len(S.CLIP_HOWS)} clip changes x "
+                                   f"{len(S.CLIP_NUMS)} number types; option sequences on 9 types and 4 interval containers")
+    hs += list(_random_sessions(ctx.rng, ctx.budget(150, 2500)))
+    for h in hs:
+        for st_ in h["steps"]:
+            if st_["do"] in ("set", "derive", "clip"):
+                ctx.tally(f"history:{st_['do']}:{st_.get('how', 'new')}")
+            elif st_["do"] == "touch":
+                ctx.tally("history:touch:" + st_.get("what", ""))
+            else:
+                ctx.tally("history:call:" + st_["do"])
+    ctx.run_cases(OPS["session"], hs)
+    for k, v in sorted(S.FALLBACKS.items()):
+        ctx.tally("path refused by the data model (fresh object used instead): " + k, v)
+
+
+def _stage_construction(ctx):
+    ctx.run_cases(OPS["intervals_overlap"], _interval_form_cases())
+    forms = list(_geom_form_cases())
+    ctx.run_cases(OPS["temporal"], forms)
+    ctx.run_cases(OPS["frequency"], forms)
+    ctx.run_cases(OPS["is_in_clip"], _clip_form_cases())
+    ctx.exhaustive["call forms"] = ("every way of writing the optional arguments (positional, mixed, keywords in both orders, "
+                                    "explicit None, omitted) x 17 threshold settings x 14 interval relations x 4 containers; "
+                                    "9 types x both argument positions; is_in_clip positional / keyword / default")
+    pairs = list(_construction_pair_cases(ctx.rng))
+    ctx.run_cases(OPS["temporal"], pairs)
+    ctx.run_cases(OPS["frequency"], pairs)
+    ctx.run_cases(OPS["is_in_clip"], _construction_clip_cases(ctx.rng))
+    ctx.exhaustive["construction paths"] = (f"9 types x {len(S.GEOM_BUILDS)} construction paths x 4 placements x both argument "
+                                            "positions; x 4 clip construction paths x 3 number types")
+    by_op = {}
+    plan = [(n, (1, n // 2, n // 2 + 1, n)) for n in BIG_SIZES] if ctx.thorough() else \
+        [(17, (1, 8, 17)), (257, (1, 128, 257)), (1025, (512 + ctx.seed % 2, 1025))]
+    for opn, c in _big_cases(plan):
+        by_op.setdefault(opn, []).append(c)
+    for opn, cs in by_op.items():
+        ctx.run_cases(OPS[opn], cs)
+    ctx.exhaustive["sizes"] = "5 multi-vertex types x {17, 257, 1025} vertices / parts x extreme at the start / middle / end"
+
+
+# ---------------------------------------------------------------- tolerance-sized offsets, lattices (HISTORIES.md 4)
+_MAGNITUDES = [1e-3, 1.0, 1e3, 1e6]
+_EPSILONS = [1e-6, 1e-7, 1e-8, 1e-9, 1e-10, 1e-11, 1e-12]
+
+
+def _tolerance_cases(rng):
+    """every comparison the property pins, missed / met by a relative 1e-6 .. 1e-12 of the threshold, at small and
+    large magnitudes: thousands of ulps, far outside the rounding band, so the exact answer is demanded (an
+    `isclose`, an epsilon added to either side, a rounded operand all show here).  Yields (op, case)."""
+    for M in _MAGNITUDES:
+        for eps in _EPSILONS:
+            for sign in (-1.0, 1.0):
+                s1 = M * rng.uniform(0.5, 4)
+                w = M * rng.uniform(0.5, 2)
+                e1 = s1 + w
+                x = w * rng.uniform(0.3, 0.9)               # the intersection: comparable to the widths
+                s2 = e1 - x
+                e2 = s2 + w * rng.choice([1.5, 3.0])
+                xx = float(min(Fraction(e1), Fraction(e2)) - max(Fraction(s1), Fraction(s2)))
+                i1, i2 = [rat(s1), rat(e1)], [rat(s2), rat(e2)]
+                a = xx * (1 + sign * eps)
+                swap = rng.random() < 0.5
+                c = {"i1": i2 if swap else i1, "i2": i1 if swap else i2, "abs": rat(a), "rel": None}
+                yield "intervals_overlap_f64", c
+                # relative: the second interval placed so that the intersection is r * (1 -/+ eps) of the shorter width
+                r = rng.choice([0.25, 0.3, 0.5, 0.7, 0.9])
+                w1 = float(Fraction(e1) - Fraction(s1))
+                s2r = e1 - r * w1 * (1 - sign * eps)
+                c2 = {"i1": i1, "i2": [rat(s2r), rat(s2r + 2 * w1)], "abs": None, "rel": rat(r)}
+                if swap:
+                    c2["i1"], c2["i2"] = c2["i2"], c2["i1"]
+                yield "intervals_overlap_f64", c2
+                # the same through the geometry predicates (time axis: intervals; frequency axis: boxes; magnitudes
+                # of the frequency axis stay below MAX_FREQUENCY)
+                if M <= 1e3:
+                    lo, hi = rng.uniform(100, 200), rng.uniform(300, 400)
+                    g1 = {"type": "BoundingBox", "coordinates": [rat(s1), rat(lo), rat(e1), rat(hi)]}
+                    g2 = {"type": rng.choice(["TimeInterval", "BoundingBox"]), "coordinates": None}
+                    if g2["type"] == "TimeInterval":
+                        g2["coordinates"] = [rat(s2), rat(e2)]
+                    else:
+                        g2["coordinates"] = [rat(s2), rat(lo), rat(e2), rat(hi)]
+                    yield "temporal_f64", {"g1": g1, "g2": g2, "abs": rat(a), "rel": None}
+                    yield "temporal_f64", {"g1": g2, "g2": g1, "abs": rat(a), "rel": None}
+                    f1 = {"type": "BoundingBox", "coordinates": ["1", rat(s1), "2", rat(e1)]}
+                    f2 = {"type": "BoundingBox", "coordinates": ["0", rat(s2), "3", rat(e2)]}
+                    yield "frequency_f64", {"g1": f1, "g2": f2, "abs": rat(a), "rel": None}
+                    f2r = {"type": "BoundingBox", "coordinates": ["0", rat(s2r), "3", rat(s2r + 2 * w1)]}
+                    yield "frequency_f64", {"g1": f2r, "g2": f1, "abs": None, "rel": rat(r)}
+                # is_in_clip: the event ends a relative eps after / before clip start + m, or starts as much
+                # before / after clip end - m
+                cs, m = M * rng.uniform(1, 3), M * rng.choice([0.0, 0.1, 0.5])
+                ce = cs + M * rng.uniform(2, 4)
+                edge1, edge2 = float(Fraction(cs) + Fraction(m)), float(Fraction(ce) - Fraction(m))
+                ty = rng.choice(["TimeInterval", "BoundingBox"])
+
+                def geom(s, e, ty=ty):
+                    if ty == "TimeInterval":
+                        return {"type": ty, "coordinates": [rat(s), rat(e)]}
+                    return {"type": ty, "coordinates": [rat(s), "100", rat(e), "200"]}
+                end = edge1 * (1 + sign * eps)
+                yield "is_in_clip_f64", {"g": geom(max(0.0, end - M), end), "start": rat(cs), "end": rat(ce), "min": rat(m)}
+                start = edge2 * (1 + sign * eps)
+                yield "is_in_clip_f64", {"g": geom(start, start + M), "start": rat(cs), "end": rat(ce), "min": rat(m)}
+                t = rng.choice([end, start])
+                yield "is_in_clip_f64", {"g": {"type": "TimeStamp", "coordinates": rat(t)}, "start": rat(cs), "end": rat(ce),
+                                         "min": rat(m)}
+
+
+def _lattice_cases(stride, offset):
+    """non-dyadic lattices: every point k/100 of the axis against every `stride`-th point j/100 (all of them in
+    thorough): interval ends, thresholds that are ties in decimal arithmetic, clip edges start + m"""
+    pts = [k / 100 for k in range(101)]
+    for k in range(101):
+        for j in range(offset % stride, 101, stride):
+            # [0, 1] against [j/100, 2] with the decimal tie (100 - j)/100 as threshold, [0, k/100] against [j/100, 1]
+            yield "intervals_overlap_f64", {"i1": ["0", "1"], "i2": [rat(pts[j]), "2"], "abs": rat((100 - j) / 100), "rel": None}
+            yield "intervals_overlap_f64", {"i1": ["0", rat(pts[k])], "i2": [rat(pts[j]), "1"],
+                                            "abs": rat(max(k - j, 0) / 100), "rel": None}
+            yield "intervals_overlap_f64", {"i1": [rat(pts[j]), rat(pts[j] + pts[k])], "i2": ["0", "3"], "abs": None,
+                                            "rel": rat(pts[k])}
+            # clip [k/100, 3] with minimum j/100: the event ends exactly on (k + j)/100
+            yield "is_in_clip_f64", {"g": {"type": "TimeInterval", "coordinates": ["0", rat((k + j) / 100)]},
+                                     "start": rat(pts[k]), "end": "3", "min": rat(pts[j])}
+            yield "is_in_clip_f64", {"g": {"type": "TimeStamp", "coordinates": rat(3 - (k + j) / 100)},
+                                     "start": rat(pts[k]), "end": "3", "min": rat(pts[j])}
 
 
 # ---------------------------------------------------------------- arbitrary binary64 inputs
@@ -724,12 +1271,22 @@ def _rnd64_contract(ctx):
 
 
 def run(ctx):
-    ctx.stage("signature-table", _signature_table, ctx)
-    ctx.stage("symbolic-ties", _symbolic_ties, ctx)
-    ctx.stage("discharge", ctx.discharge, ["SoundeventModel.Intervals", "SoundeventModel.Tactics"])
-    ctx.stage("correspondence", _correspondence, ctx)
-    ctx.stage("rnd64-contract", _rnd64_contract, ctx)
-    ctx.stage("binary64", _floats, ctx)
+    import time
+    times = []
+
+    def stage(name, fn, *args):
+        t0 = time.time()
+        ctx.stage(name, fn, *args)
+        times.append(f"{name} {time.time() - t0:.1f}s")
+    stage("signature-table", _signature_table, ctx)
+    stage("symbolic-ties", _symbolic_ties, ctx)
+    stage("discharge", ctx.discharge, ["SoundeventModel.Intervals", "SoundeventModel.Tactics"])
+    stage("correspondence", _correspondence, ctx)
+    stage("construction-paths", _stage_construction, ctx)
+    stage("histories", _stage_histories, ctx)
+    stage("rnd64-contract", _rnd64_contract, ctx)
+    stage("binary64", _floats, ctx)
+    ctx.note("stage wall times: " + ", ".join(times))
 
 
 def _correspondence(ctx):
@@ -738,12 +1295,14 @@ def _correspondence(ctx):
     ctx.run_cases(OPS["intervals_overlap"], _grid_interval_cases(den))
     ctx.exhaustive["intervals_overlap grid"] = f"end points i/{den}, i=0..{2 * den}, all 4-tuples x {len(THRESHOLDS)} threshold settings"
     ctx.run_cases(OPS["intervals_overlap"], _typed_interval_cases())
+    ctx.run_cases(OPS["intervals_overlap"], _bool_threshold_cases())
     ctx.exhaustive["intervals_overlap argument types"] = ("end points 0..3, all 4-tuples x 13 threshold settings x "
-                                                          "{int, numpy.float64, Fraction, list intervals, positional, explicit None}")
+                                                          "{int, numpy.float64 / float32 / int64, Fraction, list intervals, positional, explicit None}; "
+                                                          "booleans as thresholds")
     ctx.run_cases(OPS["intervals_overlap"], _random_interval_cases(ctx.rng, ctx.budget(4000, 60000)))
     pairs = list(_geom_pair_cases(ctx.rng, ctx.budget(3, 40)))
     pairs += list(_geom_boundary_cases(ctx.rng, ctx.budget(2, 6)))
-    ctx.exhaustive["geometry pairs"] = "81 type pairs x 12 extent relations x both orders (time axis; frequency relation drawn)"
+    ctx.exhaustive["geometry pairs"] = "81 type pairs x 12 extent relations x both orders, enumerated on the time axis and on the frequency axis (the other axis drawn)"
     ctx.run_cases(OPS["temporal"], pairs)
     ctx.run_cases(OPS["frequency"], pairs)
     ctx.run_cases(OPS["is_in_clip"], _clip_cases(ctx.rng, ctx.budget(40, 600)))
@@ -757,6 +1316,23 @@ def _floats(ctx):
     _run_float(ctx, OPS["temporal_f64"], pairs)
     _run_float(ctx, OPS["frequency_f64"], pairs)
     _run_float(ctx, OPS["is_in_clip_f64"], _float_clip_cases(ctx.rng, ctx.budget(1000, 12000)))
+    _boundaries(ctx, ctx.budget(2, 6), 1 if ctx.thorough() else 6)
+
+
+def _boundaries(ctx, reps, stride):
+    by_op = {}
+    for _ in range(reps):
+        for opn, c in _tolerance_cases(ctx.rng):
+            by_op.setdefault(opn, []).append(c)
+    ctx.tally("tolerance-sized offsets (1e-6 .. 1e-12 relative, magnitudes 1e-3 .. 1e6)", sum(len(v) for v in by_op.values()))
+    n0 = sum(len(v) for v in by_op.values())
+    for opn, c in _lattice_cases(stride, ctx.seed):
+        by_op.setdefault(opn, []).append(c)
+    ctx.tally("lattice points k/100", sum(len(v) for v in by_op.values()) - n0)
+    ctx.exhaustive["non-dyadic lattice"] = (f"end points / thresholds / clip edges k/100, k = 0..100, against j/100 for every "
+                                            f"{stride}-th j (offset = seed)")
+    for opn, cs in by_op.items():
+        _run_float(ctx, OPS[opn], cs)
 
 
 def search(ctx, failures):
@@ -774,3 +1350,11 @@ def search(ctx, failures):
     _run_float(ctx, OPS["temporal_f64"], fp)
     _run_float(ctx, OPS["frequency_f64"], fp)
     _run_float(ctx, OPS["is_in_clip_f64"], _float_clip_cases(ctx.rng, 6000))
+    # construction paths, sizes, histories, tolerance-sized offsets and lattices, wider than in `run`
+    ctx.run_cases(OPS["session"], _random_sessions(ctx.rng, 1500))
+    by_op = {}
+    for opn, c in _big_cases([(n, (1, n // 2, n // 2 + 1, n)) for n in BIG_SIZES]):
+        by_op.setdefault(opn, []).append(c)
+    for opn, cs in by_op.items():
+        ctx.run_cases(OPS[opn], cs)
+    _boundaries(ctx, 6, 2)
